@@ -1418,7 +1418,14 @@ pub mod gen {
                         _ => (len, ptype(rng), lab, 4097),
                     };
                     fid = fid.wrapping_add(1);
-                    ops.push(submit(lenx, rng.next(), ptx, &labx, fid, buf, &[]));
+                    // some PDUs go through encap_ext (optional extensions only: every receiver can parse them)
+                    if rng.chance(1, 8) {
+                        let e = [opt_ext(rng)];
+                        let extra = e[0].1.len() + 2;
+                        ops.push(submit(lenx, rng.next(), ptx, &labx, fid, buf + if rng.chance(1, 2) { extra } else { 0 }, &e));
+                    } else {
+                        ops.push(submit(lenx, rng.next(), ptx, &labx, fid, buf, &[]));
+                    }
                 }
             }
         }
